@@ -401,7 +401,7 @@ class Vector():
 		dtype = self.schema()
 
 		# Type check and promotion (same pattern as __setitem__)
-		if dtype is not None and value is not None:
+		if dtype is not None and dtype.kind is not object and value is not None:
 			try:
 				validate_scalar(value, dtype)
 			except TypeError:
